@@ -13,6 +13,7 @@ import (
 	"context"
 	"flag"
 	"fmt"
+	"runtime"
 	"strings"
 	"sync"
 	"time"
@@ -247,6 +248,128 @@ func main() {
 				fail("bounded_takeover", "takeover-too-late", fmt.Sprintf("holder %d stopped; no other server took over within %d rounds (took over in round %d)", holder, takeoverBound, took))
 			}
 		}
+		// phase 7 (compared with the model after every single DB operation): any interleaving of the servers' operations.
+		// A turn runs in its own goroutine and stops before each DB operation until the schedule lets that operation go
+		// (or fail); between two operations of one server the others do theirs. Stretches in which some servers (often the
+		// holder) stay silent let the others' dead-leader counters grow, so that campaigns, refused votes and refused
+		// renewals happen in the middle of other servers' turns.
+		{
+			// bring every server to the end of its turn first: the model's turn-level state and the servers agree there
+			inflight := make([]*opCtx, n)
+			dones := make([]chan struct{}, n)
+			microOp := func(i int, failOp bool) {
+				before := views()[i]
+				recBefore, _ := record()
+				if inflight[i] == nil {
+					oc := newOpCtx()
+					d := make(chan struct{})
+					inflight[i], dones[i] = oc, d
+					turns[i]++
+					go func() { ms[i].TurnCtx(oc); close(d) }()
+					select {
+					case <-oc.arrive:
+					case <-d:
+						hx.Die("a turn without any DB operation")
+					}
+				}
+				oc := inflight[i]
+				kind := oc.kind()
+				oc.release <- failOp
+				doneNow := false
+				select {
+				case <-oc.arrive:
+				case <-dones[i]:
+					doneNow = true
+					inflight[i] = nil
+				}
+				op := map[string]interface{}{"op": "micro", "srv": i, "fail": failOp}
+				ops = append(ops, op)
+				run.OpLine(op)
+				inst, tick := record()
+				var b strings.Builder
+				fmt.Fprintf(&b, "%s done=%v rec=%d/%d", kind, doneNow, inst, tick)
+				vs := views()
+				for _, v := range vs {
+					if v.has {
+						fmt.Fprintf(&b, " [%v %d/%d/%d]", v.leader, v.inst, v.tick, v.static)
+					} else {
+						fmt.Fprintf(&b, " [%v -]", v.leader)
+					}
+				}
+				run.OutLine(b.String())
+				run.Count("case:micro_" + kind)
+				id := uint64(i + 1)
+				// leader only after own id, operation by operation: a server that regards itself as leader after one of its
+				// operations on the record has just read its own id there or had its write accepted; the session request in
+				// between leaves it what it was
+				if vs[i].leader {
+					switch {
+					case kind == "session":
+						if !before.leader {
+							fail("leader_only_after_own_id", "leader-after-session-request", fmt.Sprintf("server %d turned leader on a session request", id))
+						}
+					case failOp:
+						fail("leader_only_after_own_id", "leader-after-failed-operation", fmt.Sprintf("server %d regards itself as leader after a %s that failed", id, kind))
+					case inst != id:
+						fail("leader_only_after_own_id", "leader-after-operation-that-did-not-confirm-it", fmt.Sprintf("server %d regards itself as leader after a %s that left the record naming %d (it named %d before)", id, kind, inst, recBefore))
+					}
+				}
+				if kind == "read" && before.leader && inflight[i] == nil && (failOp || recBefore != id) && vs[i].leader {
+					fail("step_down", "leader-kept-after-read", fmt.Sprintf("leader %d read the record (failed: %v, names %d) and stayed leader", id, failOp, recBefore))
+				}
+			}
+			steps := 60 + r.Intn(80)
+			silent := map[int]bool{}
+			for t := 0; t < steps; t++ {
+				if t%25 == 0 {
+					// a new stretch: who stays silent (servers in the middle of a turn stay there meanwhile)
+					silent = map[int]bool{}
+					if inst, _ := record(); inst != 0 && r.Intn(3) != 0 {
+						silent[int(inst-1)] = true
+					}
+					for q := 0; q < n; q++ {
+						if r.Intn(5) == 0 && len(silent) < n-1 {
+							silent[q] = true
+						}
+					}
+				}
+				cand := []int{}
+				for q := 0; q < n; q++ {
+					if !silent[q] {
+						cand = append(cand, q)
+					}
+				}
+				i := cand[r.Intn(len(cand))]
+				if r.Intn(3) == 0 {
+					// prefer finishing something that is under way
+					for _, q := range cand {
+						if inflight[q] != nil {
+							i = q
+							break
+						}
+					}
+				}
+				microOp(i, r.Intn(14) == 0)
+			}
+			// drain: every turn under way is completed
+			for q := 0; q < n; q++ {
+				for inflight[q] != nil {
+					microOp(q, false)
+				}
+			}
+			run.Count("case:interleaved_schedule")
+			// and from whatever state that left: one server alone becomes leader within the bound
+			x := r.Intn(n)
+			took := false
+			for rd := 1; rd <= 2*(takeoverBound+3) && !took; rd++ {
+				turn(x, false)
+				inst, _ := record()
+				took = views()[x].leader && inst == uint64(x+1)
+			}
+			if !took {
+				fail("bounded_takeover", "sole-survivor-never-leader-after-interleaving", fmt.Sprintf("after an interleaved schedule, server %d took %d turns alone without becoming leader", x+1, 2*(takeoverBound+3)))
+			}
+		}
 		// phase 4 (implementation only, nothing emitted for the model): schedules at the granularity of single DB operations.
 		// A turn is paused before its k-th operation while another server takes a whole turn, or its k-th operation is
 		// issued and then abandoned (the caller stops waiting; the operation may still take effect). Afterwards one server
@@ -399,6 +522,67 @@ func main() {
 				}
 			}
 		}
+		// phase 6 (implementation only): a renewal that is refused. The server the record names reads the record, finds its
+		// own id and is paused before its renewal; meanwhile a follower that has watched the record stand still for long
+		// enough campaigns against it and wins; the renewal is then refused. Whoever was refused has just been told that the
+		// record is not its own: it must not regard itself as leader after that turn. First with the holder being the leader,
+		// then with a holder that had stepped down after a failed read and is resuming.
+		if n >= 2 {
+			sched := []string{}
+			holderID, _ := record()
+			for try := 0; try < 14 && (holderID == 0 || !views()[holderID-1].leader); try++ {
+				for q := 0; q < n; q++ {
+					ms[q].TurnCtx(context.Background())
+				}
+				holderID, _ = record()
+			}
+			if holderID != 0 && views()[holderID-1].leader {
+				L := int(holderID - 1)
+				F := (L + 1 + r.Intn(n-1)) % n
+				sched = append(sched, fmt.Sprintf("%d servers; record names %d, which is leader; only servers %d and %d take turns from here", n, L+1, L+1, F+1))
+				refused := func(X, Y int, how string) {
+					// Y watches the silent holder X until its next turn will campaign
+					for t := 0; t < 12; t++ {
+						if _, has, ci, _, st := ms[Y].View(); has && ci == uint64(X+1) && st >= 3 {
+							break
+						}
+						ms[Y].TurnCtx(context.Background())
+						sched = append(sched, fmt.Sprintf("turn %d", Y+1))
+					}
+					sc := newStepCtx(2, 0)
+					done := make(chan struct{})
+					go func() { ms[X].TurnCtx(sc); close(done) }()
+					select {
+					case <-sc.paused:
+						ms[Y].TurnCtx(context.Background())
+						close(sc.resume)
+						<-done
+						sched = append(sched, fmt.Sprintf("turn %d paused after it has read the record (before operation 2); turn %d; turn %d resumed", X+1, Y+1, X+1))
+					case <-done:
+						sched = append(sched, fmt.Sprintf("turn %d (one operation only)", X+1))
+					}
+					inst, _ := record()
+					run.Count("case:refused_renewal_" + how)
+					if inst == uint64(Y+1) {
+						run.Count("c14:renewal_refused_" + how)
+						if views()[X].leader {
+							run.Violate(hx.Violation{Property: "C14", Clause: "leader_only_after_own_id", Signature: "leader-after-refused-renewal:" + how, Seq: s,
+								What: fmt.Sprintf("server %d regards itself as leader at the end of a turn whose last operation, the renewal, was refused: the record names %d, which campaigned while %d was between reading the record and renewing it", X+1, Y+1, X+1),
+								Ops:  append([]string{}, sched...)})
+						}
+					}
+				}
+				refused(L, F, "leader")
+				// now F holds the record (and leads); a failed read makes it step down while the record keeps naming it
+				if inst, _ := record(); inst == uint64(F+1) && views()[F].leader {
+					ms[F].Turn(true)
+					sched = append(sched, fmt.Sprintf("turn %d with a failing read: it steps down, the record still names it", F+1))
+					if !views()[F].leader {
+						refused(F, L, "resuming-holder")
+					}
+				}
+			}
+		}
 		run.Nontrivial(fmt.Sprintf("%d", s))
 		if s == 0 {
 			run.Sample(ops[:min(len(ops), 8)])
@@ -421,6 +605,74 @@ type stepCtx struct {
 	done      chan struct{}
 	closed    bool
 }
+
+// opCtx stops a turn before every DB operation until the schedule releases that operation (to succeed, or to fail before
+// it is issued). Which operation is about to be issued is read off the call stack. Closing a session that is being dropped
+// (resetSession) is not an operation on the election record and belongs to the step that dropped it: it is let through.
+type opCtx struct {
+	mu      sync.Mutex
+	k       string
+	last    time.Time
+	arrive  chan struct{}
+	release chan bool
+}
+
+func newOpCtx() *opCtx { return &opCtx{arrive: make(chan struct{}), release: make(chan bool)} }
+
+func (c *opCtx) kind() string { c.mu.Lock(); defer c.mu.Unlock(); return c.k }
+
+func (c *opCtx) Deadline() (time.Time, bool) {
+	pcs := make([]uintptr, 24)
+	nn := runtime.Callers(2, pcs)
+	frames := runtime.CallersFrames(pcs[:nn])
+	k := "other"
+	derive := false
+	for {
+		f, more := frames.Next()
+		if strings.HasPrefix(f.Function, "context.WithDeadline") || strings.HasPrefix(f.Function, "context.WithTimeout") {
+			derive = true
+		}
+		switch {
+		case k != "other":
+		case strings.Contains(f.Function, "resetSession"):
+			k = "close"
+		case strings.Contains(f.Function, "getElectionInfo"):
+			k = "read"
+		case strings.Contains(f.Function, "getSession"):
+			k = "session"
+		case strings.Contains(f.Function, "makeDrummerVote"):
+			k = "vote"
+		}
+		if !more {
+			break
+		}
+	}
+	if !derive {
+		// not the start of an operation: the context derived for an operation whose deadline has already passed asks its
+		// parent again (context.WithTimeout returns a plain child when the parent's deadline is the earlier one)
+		c.mu.Lock()
+		defer c.mu.Unlock()
+		return c.last, true
+	}
+	if k == "close" {
+		return time.Now().Add(time.Hour), true
+	}
+	c.mu.Lock()
+	c.k = k
+	c.mu.Unlock()
+	c.arrive <- struct{}{}
+	d := time.Now().Add(time.Hour)
+	if failOp := <-c.release; failOp {
+		d = time.Now().Add(-time.Hour)
+	}
+	c.mu.Lock()
+	c.last = d
+	c.mu.Unlock()
+	return d, true
+}
+func (c *opCtx) Done() <-chan struct{}         { return nil }
+func (c *opCtx) Err() error                    { return nil }
+func (c *opCtx) Value(interface{}) interface{} { return nil }
 
 func newStepCtx(pauseAt, abandonAt int) *stepCtx {
 	return &stepCtx{pauseAt: pauseAt, abandonAt: abandonAt, paused: make(chan struct{}), resume: make(chan struct{}), done: make(chan struct{})}
